@@ -339,6 +339,17 @@ def mempool_events(ctx, P, cg):
             if q.endswith("AcceptSingleTransactionInternal"):
                 # (the reference tree additionally requires that the transaction survived LimitMempoolSize; the property only needs
                 #  that it really was added - FinalizeSubpackage above - and that this is not a test-accept, so that is all we demand)
+                # the notification must not come after a size-limit eviction of that very transaction (that would be "removed, then
+                # added"): either no LimitMempoolSize can have run before this site, or the site is guarded by the still-exists test
+                from sa.engine.paths import MayFlow as EngineMayFlow
+                lim = EngineMayFlow(f, P, gens=[("limited", lambda e: callee(e) in ("LimitMempoolSize", "CTxMemPool::TrimToSize", "CTxMemPool::Expire"))])
+                lim.watch = SIG("TransactionAddedToMempool")
+                lim.run()
+                limited_before = any("limited" in st_ for _, st_, stm in lim.events if stm.get("l") == s.line)
+                cex2 = F.counterexample(g, F.parse("PKG || BYPASS || EXISTS")) if limited_before else None
+                ctx.ob("AcceptSingleTransactionInternal/added-not-after-eviction@L%s" % s.line, "ORDER", "TransactionAddedToMempool is not emitted for a transaction that a preceding "
+                       "LimitMempoolSize may already have evicted (it is sent before the limit, or only if the transaction still exists)", cex2 is None, s.where,
+                       None if cex2 is None else {"counterexample": cex2})
                 cex = F.counterexample(g, F.parse("!TEST"))
                 ctx.ob("AcceptSingleTransactionInternal/added-only-if-real@L%s" % s.line, "MPT", "a single transaction is reported added only if this was not a test-accept "
                        "(and, by the ORDER obligation, after it entered the mempool)", cex is None, s.where, None if cex is None else {"counterexample": cex})
